@@ -453,6 +453,7 @@ func runC14(ctx *core.Ctx) {
 		execC14(ctx, c)
 	})
 	c14NestedStream(ctx)
+	c14MultiStream(ctx)
 }
 
 func c14Copy(r Row) Row {
